@@ -152,3 +152,60 @@ pub fn shard_range(total: u64, k: u32, n: u32) -> (u64, u64) {
     let end = start + per + if k < rem { 1 } else { 0 };
     (start, end)
 }
+
+// --- container level ----------------------------------------------------------------------
+
+pub fn lib_expand(file: &[u8]) -> Result<Result<Vec<u8>, LibErr>, Caught> {
+    guard(|| preflate_rs::expand_zlib_chunks(file, 0).map_err(|e| err_info(&e)))
+}
+
+pub fn lib_recreate(container: &[u8]) -> Result<Result<Vec<u8>, LibErr>, Caught> {
+    guard(|| {
+        let mut out = Vec::new();
+        let mut cur = std::io::Cursor::new(container);
+        match preflate_rs::recreated_zlib_chunks(&mut cur, &mut out) {
+            Ok(()) => Ok(out),
+            Err(e) => Err(err_info(&e)),
+        }
+    })
+}
+
+pub fn first_diff(a: &[u8], b: &[u8]) -> usize {
+    a.iter()
+        .zip(b.iter())
+        .position(|(x, y)| x != y)
+        .unwrap_or(a.len().min(b.len()))
+}
+
+/// labels for an expanded container, via the independent container model
+pub fn container_labels(e: &[u8]) -> Result<(Vec<String>, usize), String> {
+    use crate::model_container::*;
+    let chunks = parse_container(e)?;
+    let mut v = vec![];
+    let mut nonlit = 0;
+    for c in &chunks {
+        match c.kind {
+            ChunkKind::Literal => {}
+            ChunkKind::Deflate => {
+                nonlit += 1;
+                v.push("container:deflate-chunk".to_string());
+            }
+            ChunkKind::Png => {
+                nonlit += 1;
+                v.push("container:png-chunk".to_string());
+                if c.idat_sizes.len() > 1 {
+                    v.push("container:png-multi-idat".to_string());
+                }
+            }
+        }
+    }
+    if nonlit == 0 {
+        v.push("container:literal-only".to_string());
+    }
+    if nonlit > 1 {
+        v.push("container:multiple-streams".to_string());
+    }
+    v.sort();
+    v.dedup();
+    Ok((v, nonlit))
+}
